@@ -37,7 +37,24 @@ theorem model_matches_source_facts :
                     maxPending := Gen.QdbFacts.DefaultMaxPending, maxPendingNoSync := Gen.QdbFacts.DefaultMaxPendingNoSync } ∧
     bufSize = Gen.QdbFacts.defragBufSize ∧ bufSize = Gen.QdbFacts.idxBufSize ∧ Gen.QdbFacts.KeySize = 8 ∧
     Gen.QdbFacts.freerecChecksDatpos = true ∧ Gen.QdbFacts.loadlogRejectsHeaderError = true ∧
-    Gen.QdbFacts.defragClearsPending = true ∧ Gen.QdbFacts.browseAppliesBeforeAbort = true := by decide
+    Gen.QdbFacts.defragClearsPending = true ∧ Gen.QdbFacts.browseAppliesBeforeAbort = true ∧
+    Gen.QdbFacts.sharedLockOnlyAroundReads = true := by decide
+
+/-- GET IS NOT READ-ONLY (why the lock discipline is part of the tie). Every statement of this file is about calls made
+    one after the other; the store is used by many goroutines through one lock, and the calls are one after the other
+    because every entry point holds that lock exclusively. A reader/writer lock keeps this only when whatever runs under
+    the shared lock writes nothing (source fact `sharedLockOnlyAroundReads`, regenerated from lib/others/qdb on every run
+    and restated in model_matches_source_facts). A look-up does write: in the model `Qdb.get` returns a NEW store — on the
+    witness below (one record on disk, not in memory, flagged NO_CACHE, as sync() leaves it) Get loads the record's bytes
+    into the index and clears NO_CACHE, so neither the record nor its flag word is what it was; Count, in contrast, is a
+    function of the store that returns only a number. Two Gets that overlap would both perform these writes (and the
+    Seek + Read on the shared descriptor behind `loadrec`), which no statement here covers; the harness makes concurrent
+    calls (`par`) and holds the replies to the same calls made in order. -/
+theorem get_is_not_read_only :
+    let db := run (openDB {} false true {}) [.putExt 1 [0xaa, 0xbb] NO_CACHE, .sync]
+    ilookup 1 db.index = some { data := none, seq := 1, pos := 4, len := 2, flags := NO_CACHE } ∧
+    ilookup 1 (Qdb.get db 1).1.index = some { data := some [0xaa, 0xbb], seq := 1, pos := 4, len := 2, flags := 0 } ∧
+    (Qdb.get db 1).2 = some [0xaa, 0xbb] ∧ (Qdb.get db 1).1.index ≠ db.index := by decide
 
 /-- Refinement, cached sub-language. For EVERY sequence of Put / PutExt / Del / Get / Browse / ApplyFlags /
     Defrag / Sync / NoSync (any thresholds, volatile or not, forced or automatic sync and defrag inside)
